@@ -153,12 +153,14 @@ impl<'a> TryFrom<&'a Val> for Xml<&'a [u8]> {
 
 macro_rules! write_kvs {
     ($w:ident, $a:ident, $f:expr) => {{
-        $a.iter().try_for_each(|(k, v)| {
+        $a.iter().try_for_each(|(k, v): &(&[u8], &[u8])| {
+            // a value containing a double quote can only be delimited by single quotes
+            let q = if v.contains(&b'"') { '\'' } else { '"' };
             write!($w, " ")?;
             $f(k)?;
-            write!($w, "=\"")?;
+            write!($w, "={q}")?;
             $f(v)?;
-            write!($w, "\"")
+            write!($w, "{q}")
         })
     }};
 }
